@@ -109,19 +109,33 @@ def parse_output(out, names):
 
 def run_groups(groups, pid, tier, jobs=8):
     out = dict(harnesses=[], cmds=[], trusted=[], solver_s=0.0)
+    # groups of the same crate share one scratch copy and one build
+    by_crate = {}
     for gname in groups:
-        g = load_group(gname)
-        hs = [h for h in g["harnesses"] if pid in h["props"] and (tier == "thorough" or h.get("tier", "quick") == "quick")]
-        if not hs:
+        g0 = load_group(gname)
+        hs0 = [dict(h, group=gname) for h in g0["harnesses"] if pid in h["props"] and (tier == "thorough" or h.get("tier", "quick") == "quick")]
+        if not hs0:
             continue
+        e = by_crate.setdefault(g0["crate"], dict(groups=[], hs=[]))
+        e["groups"].append(g0)
+        e["hs"] += hs0
+    for crate, e in by_crate.items():
+        gs = e["groups"]
+        hs = e["hs"]
+        g = dict(crate=crate, flags=sum([x.get("flags", []) for x in gs], []), trusted=sum([x.get("trusted", []) for x in gs], []),
+                 harness_timeout_s=max([x.get("harness_timeout_s", 0) for x in gs]) or None)
+        if g["harness_timeout_s"] is None:
+            del g["harness_timeout_s"]
+        gname = "+".join(x["name"] for x in gs)
         scratch = None
         try:
             scratch, dst = make_scratch()
             try:
-                inject(dst, g)
-            except (extract.AnchorLost, OSError) as e:
+                for x in gs:
+                    inject(dst, x)
+            except (extract.AnchorLost, OSError) as e2:
                 for h in hs:
-                    out["harnesses"].append(dict(h, status="undecided", detail="injection failed: %s" % e))
+                    out["harnesses"].append(dict(h, status="undecided", detail="injection failed: %s" % e2))
                 continue
             base = ["cargo", "kani", "-p", g["crate"], "-Z", "function-contracts", "-Z", "stubbing"] + g.get("flags", [])
             env = dict(os.environ, CARGO_NET_OFFLINE="true", CARGO_TARGET_DIR=os.path.join(scratch, "target"))
@@ -201,17 +215,25 @@ def run_groups(groups, pid, tier, jobs=8):
                         hh["time_s"] = r["time_s"]
                 out["solver_s"] += (r["time_s"] or 0) if r else 0
                 out["harnesses"].append(hh)
-            # concrete playback for failures (second invocation, one harness at a time)
-            for hh in out["harnesses"]:
-                if hh.get("status") == "failed" and "playback" not in hh and hh["name"] in [h["name"] for h in hs]:
+            # concrete playback for failures (in parallel, bounded time)
+            failed_now = [hh for hh in out["harnesses"] if hh.get("status") == "failed" and "playback" not in hh and hh["name"] in [h["name"] for h in hs]]
+            if failed_now:
+                import concurrent.futures
+
+                def playback(hh):
                     pc = base + ["-Z", "concrete-playback", "--concrete-playback=print", "--harness", hh["name"]]
                     try:
-                        pp = subprocess.run(["timeout", "600"] + pc, cwd=dst, env=env, capture_output=True, text=True)
+                        pp = subprocess.run(["timeout", "400"] + pc, cwd=dst, env=env, capture_output=True, text=True)
                         m = re.search(r"Concrete playback unit test for `[^`]*`:\s*```(.*?)```", pp.stdout, re.S)
-                        if m:
-                            hh["playback"] = m.group(1).strip()[:6000]
+                        return hh["name"], (m.group(1).strip()[:6000] if m else None)
                     except Exception:  # noqa
-                        pass
+                        return hh["name"], None
+
+                with concurrent.futures.ThreadPoolExecutor(max_workers=jobs) as ex:
+                    pb = dict(ex.map(playback, failed_now))
+                for hh in failed_now:
+                    if pb.get(hh["name"]):
+                        hh["playback"] = pb[hh["name"]]
             out["trusted"].append("kani group %s: harnesses run on the real functions of crate %s compiled by kani-compiler; "
                                   "format!/fmt stubs as listed in the harness files" % (gname, g["crate"]))
             for tline in g.get("trusted", []):
